@@ -73,6 +73,12 @@ type Exec struct {
 	stack     []*ssa.Function
 	quotSplits int
 	pcDirty   bool
+	extraSolvers map[string]*Solver
+	fallbacks []string
+	fallbackMs int
+	fbQueries, fbDecided int
+	fbTime    time.Duration
+	pools     map[*Value][]Value
 	roundings [][2]string
 	defCache  map[string]string
 	radixDerived int
@@ -301,6 +307,40 @@ func (e *Exec) check(ok Bool, kind, label, msg string) {
 	if slowLog && e.sol.lastDur > time.Second {
 		fmt.Fprintf(os.Stderr, "SLOW %.1fs %s %q -> %s at %s\n", e.sol.lastDur.Seconds(), kind, label, r, e.posStr(e.curPos))
 	}
+	if r == "unknown" {
+		// second opinion: the same context, one-shot, on the other solvers (no incremental overhead, longer limit)
+		ctx := e.sol.Context()
+		var names []string
+		for _, v := range e.vec {
+			if v.Name != "" {
+				names = append(names, v.Name)
+			}
+		}
+		for _, alt := range e.fallbacks {
+			t0 := time.Now()
+			r2, vals := oneShot(alt, ctx, names, e.fallbackMs)
+			e.fbQueries++
+			e.fbTime += time.Since(t0)
+			if slowLog {
+				fmt.Fprintf(os.Stderr, "FALLBACK %s %.1fs %q -> %s\n", alt, time.Since(t0).Seconds(), label, r2)
+			}
+			if r2 == "unsat" {
+				r = "unsat"
+				e.fbDecided++
+				e.sol.Unknown--
+				e.sol.Unsat++
+				break
+			}
+			if r2 == "sat" {
+				r = "sat-fallback"
+				e.fbDecided++
+				e.sol.Unknown--
+				e.sol.Sat++
+				e.recordViolationVals(kind, label, msg, vals)
+				break
+			}
+		}
+	}
 	if r == "sat" {
 		e.recordViolation(kind, label, msg)
 	} else if r == "unknown" {
@@ -309,7 +349,7 @@ func (e *Exec) check(ok Bool, kind, label, msg string) {
 	}
 	e.sol.Pop()
 	e.assertT(ok.S)
-	if r == "sat" {
+	if r == "sat" || r == "sat-fallback" {
 		// continue only if the rest of the path is still feasible
 		if e.sol.Check() == "unsat" {
 			panic(pathStop{kind: "violated"})
@@ -329,6 +369,10 @@ func (e *Exec) recordViolation(kind, label, msg string) {
 		e.undecided = append(e.undecided, fmt.Sprintf("%s %q: model extraction failed: %v", kind, label, err))
 		return
 	}
+	e.recordViolationVals(kind, label, msg, vals)
+}
+
+func (e *Exec) recordViolationVals(kind, label, msg string, vals map[string]string) {
 	vec := make([]VecEntry, len(e.vec))
 	copy(vec, e.vec)
 	for i := range vec {
@@ -748,6 +792,28 @@ func (e *Exec) store(p Value, v Value) {
 	ptr := e.derefPtr(p)
 	if e.checkFrz && e.frozen[ptr] {
 		e.check(Bool{C: false}, "assert", "store to package-level state", "store into object reachable from a package-level variable")
+	}
+	storeInto(ptr, v)
+}
+
+// storeInto assigns v to *ptr in place: structs and arrays are overwritten field by field so that pointers to
+// their fields/elements taken earlier keep aliasing the variable (Go semantics).
+func storeInto(ptr *Value, v Value) {
+	switch nv := v.(type) {
+	case Struct:
+		if old, ok := (*ptr).(Struct); ok && len(old) == len(nv) {
+			for i := range nv {
+				storeInto(&old[i], nv[i])
+			}
+			return
+		}
+	case Array:
+		if old, ok := (*ptr).(Array); ok && len(old) == len(nv) {
+			for i := range nv {
+				storeInto(&old[i], nv[i])
+			}
+			return
+		}
 	}
 	*ptr = copyVal(v)
 }
@@ -1526,7 +1592,17 @@ func (e *Exec) builtin(fn *ssa.Builtin, args []Value, site ssa.Instruction) Valu
 				src = append(src, b)
 			}
 		}
-		n := copy(dst.B[:dst.N], src)
+		n := len(src)
+		if dst.N < n {
+			n = dst.N
+		}
+		tmp := make([]Value, n)
+		for i := 0; i < n; i++ {
+			tmp[i] = copyVal(src[i])
+		}
+		for i := 0; i < n; i++ {
+			storeInto(&dst.B[i], tmp[i])
+		}
 		return Int{W: 64, Sg: true, C: int64(n)}
 	case "delete":
 		e.mapDelete(args[0].(*Map), args[1])
@@ -1588,8 +1664,12 @@ func (e *Exec) appendOp(fn *ssa.Builtin, args []Value) Value {
 	sig := fn.Type().(*types.Signature)
 	elt := sig.Params().At(0).Type().Underlying().(*types.Slice).Elem()
 	if s.N+len(add) <= len(s.B) {
+		tmp := make([]Value, len(add))
 		for i, v := range add {
-			s.B[s.N+i] = copyVal(v)
+			tmp[i] = copyVal(v)
+		}
+		for i, v := range tmp {
+			storeInto(&s.B[s.N+i], v)
 		}
 		return Slice{B: s.B, N: s.N + len(add)}
 	}
